@@ -93,6 +93,7 @@ func init() {
 				// end to end for accepted strings (and a stride of the others): what do the endpoints put on the wire
 				if obs["accepted"] == true || k%(17*e2eEvery) == 0 {
 					_, mustRun := c.Req["landsOnInput"]
+					mustRun = mustRun || c.Must
 					if k%e2eEvery == 0 || mustRun {
 						em := map[string]interface{}{}
 						// the battery runs against a host the whitelist does not know and - for strings addressed to the whitelisted host
